@@ -1608,4 +1608,73 @@ Proof.
       * intros j Hin. rewrite Hc2 in Hin. destruct Hin as [<-|[]].
         split; [intros m0 q [Y|Y]; discriminate Y|split; [intros m0 q Y; discriminate Y|intros m0 q y Y; discriminate Y]].
       * intros [].
-  - Abort.
+  - (* CRecv *)
+    destruct (Z.ltb_spec (tpipe (th s1 t)) 0) as [L|L]; inversion H; subst st2 ev0 done; clear H.
+    + (* not a worker: fails at once, the monitor does not attribute the command to a pipe *)
+      rewrite Tp1 in L. assert (Ow : get_tid t (m14_owner m) = None) by (rewrite Own; destruct (Z.leb_spec 0 (tpipe (thr s0 t))); [lia|reflexivity]).
+      assert (Sm1 : f14_same m m1) by (unfold m1, m14r_step, m14_step; cbn; rewrite Ow; constructor; reflexivity).
+      destruct Sm1 as [M1 M2 M3 M4].
+      assert (NoLate : ~ is_late m1 t).
+      { intro L0. unfold is_late in L0. rewrite M4 in L0. destruct (f_late_cur _ _ _ R t L0) as [c1 [E1 _]]. rewrite Hcu0 in E1. discriminate E1. }
+      assert (Mc1 : mcont s1 = mcont s0).
+      { unfold mcont. destruct (Nat.eq_dec main t) as [Y|Y]; [rewrite Y, Hc1, Hc; reflexivity|]. replace (thr s1 main) with (thr s0 main); [reflexivity|]. unfold s1. cbn -[Nat.eqb]. unfold updN, th. destruct (Nat.eqb_spec main t); [contradiction|reflexivity]. }
+      assert (Nw : ~ wkr s0 t) by (intros [_ W]; lia).
+      eapply (f_idle FNone s0 s1 m m1 t _ R);
+        [reflexivity|intros u Hu; unfold s1; thr_simpl|exact Hcu1|unfold s1; thr_simpl|intro q; repeat split; auto|exact M2|exact M3|intros u _; rewrite M4; reflexivity
+        |intros u q y Y; discriminate Y|intros u q Y; discriminate Y| | |intros W; exfalso; exact (Nw W)|intros W; exfalso; exact (Nw W)
+        |intros m0 q y Hin; rewrite Hc1 in Hin; destruct Hin|intros q y Y; discriminate Y|intros q Y; discriminate Y|intros m0 q Hin; rewrite Hc1 in Hin; destruct Hin
+        |intro L0; exfalso; exact (NoLate L0)|intros m0 v Hin; rewrite Hc1 in Hin; destruct Hin|intros j Hin; rewrite Hc1 in Hin; destruct Hin
+        |intros _; rewrite Hc1; split; [cbn; lia|cbn; intro Y; lia]].
+      * intros q Hq. unfold dps. rewrite M1, Mc1. destruct (f_noex _ _ _ R q Hq) as [A [_ [_ [_ [_ [_ B]]]]]]. auto.
+      * intros u W. cbn zeta. unfold dps. rewrite M1, Mc1. pose proof (f_ps _ _ _ R u W) as L1. cbn zeta in L1. unfold dps in L1. rewrite L1.
+        assert (Hu : u <> t) by (intro Y; subst u; exact (Nw W)). replace (thr s1 u) with (thr s0 u) by (unfold s1; thr_simpl). reflexivity.
+    + rewrite Tp1 in *. apply (f_wbegin s0 m t CRecv cs _ X E R Ht Hc Hcu0 Logic.I L); [reflexivity|intros m0 v Y; discriminate Y|].
+      split; [intros m0 q [Y|Y]; inversion Y; split; [reflexivity|unfold updN; rewrite Nat.eqb_refl; reflexivity]|split; [intros m0 q Y; discriminate Y|intros m0 q y Y; discriminate Y]].
+  - (* CLSend *)
+    destruct (Z.ltb_spec (tpipe (th s1 t)) 0) as [L|L]; inversion H; subst st2 ev0 done; clear H.
+    + (* not a worker: fails at once, the monitor does not attribute the command to a pipe *)
+      rewrite Tp1 in L. assert (Ow : get_tid t (m14_owner m) = None) by (rewrite Own; destruct (Z.leb_spec 0 (tpipe (thr s0 t))); [lia|reflexivity]).
+      assert (Sm1 : f14_same m m1) by (unfold m1, m14r_step, m14_step; cbn; rewrite Ow; constructor; reflexivity).
+      destruct Sm1 as [M1 M2 M3 M4].
+      assert (NoLate : ~ is_late m1 t).
+      { intro L0. unfold is_late in L0. rewrite M4 in L0. destruct (f_late_cur _ _ _ R t L0) as [c1 [E1 _]]. rewrite Hcu0 in E1. discriminate E1. }
+      assert (Mc1 : mcont s1 = mcont s0).
+      { unfold mcont. destruct (Nat.eq_dec main t) as [Y|Y]; [rewrite Y, Hc1, Hc; reflexivity|]. replace (thr s1 main) with (thr s0 main); [reflexivity|]. unfold s1. cbn -[Nat.eqb]. unfold updN, th. destruct (Nat.eqb_spec main t); [contradiction|reflexivity]. }
+      assert (Nw : ~ wkr s0 t) by (intros [_ W]; lia).
+      eapply (f_idle FNone s0 s1 m m1 t _ R);
+        [reflexivity|intros u Hu; unfold s1; thr_simpl|exact Hcu1|unfold s1; thr_simpl|intro q; repeat split; auto|exact M2|exact M3|intros u _; rewrite M4; reflexivity
+        |intros u q y Y; discriminate Y|intros u q Y; discriminate Y| | |intros W; exfalso; exact (Nw W)|intros W; exfalso; exact (Nw W)
+        |intros m0 q y Hin; rewrite Hc1 in Hin; destruct Hin|intros q y Y; discriminate Y|intros q Y; discriminate Y|intros m0 q Hin; rewrite Hc1 in Hin; destruct Hin
+        |intro L0; exfalso; exact (NoLate L0)|intros m0 v Hin; rewrite Hc1 in Hin; destruct Hin|intros j Hin; rewrite Hc1 in Hin; destruct Hin
+        |intros _; rewrite Hc1; split; [cbn; lia|cbn; intro Y; lia]].
+      * intros q Hq. unfold dps. rewrite M1, Mc1. destruct (f_noex _ _ _ R q Hq) as [A [_ [_ [_ [_ [_ B]]]]]]. auto.
+      * intros u W. cbn zeta. unfold dps. rewrite M1, Mc1. pose proof (f_ps _ _ _ R u W) as L1. cbn zeta in L1. unfold dps in L1. rewrite L1.
+        assert (Hu : u <> t) by (intro Y; subst u; exact (Nw W)). replace (thr s1 u) with (thr s0 u) by (unfold s1; thr_simpl). reflexivity.
+    + rewrite Tp1 in *. apply (f_wbegin s0 m t (CLSend x) cs _ X E R Ht Hc Hcu0 Logic.I L); [reflexivity|intros m0 v Y; discriminate Y|].
+      split; [intros m0 q [Y|Y]; discriminate Y|split; [intros m0 q Y; discriminate Y|intros m0 q y Y; inversion Y; split; [reflexivity|unfold updN; rewrite Nat.eqb_refl; reflexivity]]].
+  - (* CCancel *)
+    destruct (Z.ltb_spec (tpipe (th s1 t)) 0) as [L|L]; inversion H; subst st2 ev0 done; clear H.
+    + (* not a worker: fails at once, the monitor does not attribute the command to a pipe *)
+      rewrite Tp1 in L. assert (Ow : get_tid t (m14_owner m) = None) by (rewrite Own; destruct (Z.leb_spec 0 (tpipe (thr s0 t))); [lia|reflexivity]).
+      assert (Sm1 : f14_same m m1) by (unfold m1, m14r_step, m14_step; cbn; rewrite Ow; constructor; reflexivity).
+      destruct Sm1 as [M1 M2 M3 M4].
+      assert (NoLate : ~ is_late m1 t).
+      { intro L0. unfold is_late in L0. rewrite M4 in L0. destruct (f_late_cur _ _ _ R t L0) as [c1 [E1 _]]. rewrite Hcu0 in E1. discriminate E1. }
+      assert (Mc1 : mcont s1 = mcont s0).
+      { unfold mcont. destruct (Nat.eq_dec main t) as [Y|Y]; [rewrite Y, Hc1, Hc; reflexivity|]. replace (thr s1 main) with (thr s0 main); [reflexivity|]. unfold s1. cbn -[Nat.eqb]. unfold updN, th. destruct (Nat.eqb_spec main t); [contradiction|reflexivity]. }
+      assert (Nw : ~ wkr s0 t) by (intros [_ W]; lia).
+      eapply (f_idle FNone s0 s1 m m1 t _ R);
+        [reflexivity|intros u Hu; unfold s1; thr_simpl|exact Hcu1|unfold s1; thr_simpl|intro q; repeat split; auto|exact M2|exact M3|intros u _; rewrite M4; reflexivity
+        |intros u q y Y; discriminate Y|intros u q Y; discriminate Y| | |intros W; exfalso; exact (Nw W)|intros W; exfalso; exact (Nw W)
+        |intros m0 q y Hin; rewrite Hc1 in Hin; destruct Hin|intros q y Y; discriminate Y|intros q Y; discriminate Y|intros m0 q Hin; rewrite Hc1 in Hin; destruct Hin
+        |intro L0; exfalso; exact (NoLate L0)|intros m0 v Hin; rewrite Hc1 in Hin; destruct Hin|intros j Hin; rewrite Hc1 in Hin; destruct Hin
+        |intros _; rewrite Hc1; split; [cbn; lia|cbn; intro Y; lia]].
+      * intros q Hq. unfold dps. rewrite M1, Mc1. destruct (f_noex _ _ _ R q Hq) as [A [_ [_ [_ [_ [_ B]]]]]]. auto.
+      * intros u W. cbn zeta. unfold dps. rewrite M1, Mc1. pose proof (f_ps _ _ _ R u W) as L1. cbn zeta in L1. unfold dps in L1. rewrite L1.
+        assert (Hu : u <> t) by (intro Y; subst u; exact (Nw W)). replace (thr s1 u) with (thr s0 u) by (unfold s1; thr_simpl). reflexivity.
+    + rewrite Tp1 in *. apply (f_wbegin s0 m t CCancel cs _ X E R Ht Hc Hcu0 Logic.I L); [reflexivity|intros m0 v Y; discriminate Y|].
+      split; [intros m0 q [Y|Y]; discriminate Y|split; [intros m0 q Y; inversion Y; split; [reflexivity|unfold updN; rewrite Nat.eqb_refl; reflexivity]|intros m0 q y Y; discriminate Y]].
+  - (* CPanic *)
+    destruct (tpipe (th s1 t) <? 0); inversion H; subst st2 ev0 done; clear H; [apply Inst; exact Logic.I|].
+    unfold s1. fid s0 t R (Plain Logic.I) Hc Hcu0 (@nil instr).
+Qed.
